@@ -13,6 +13,16 @@
   * lookups need a document: `json_pointer_get(NULL, …)` is EINVAL (`get_null_document`), so a JSON
     null *document* cannot be handed to a lookup (a null member or element is a valid target);
   * `mem n`: "growing the target array so that it holds `n` slots succeeds" (realloc).
+
+  Definitions used in the statements that live next to the lemmas about them:
+  * `Sized t` (Lemmas/PointerTok.lean): every array node of `t` has length ≤ SIZE_MAX;
+  * `nodeAt t pos`, `replaceAt`, `liveNodes` (Model/Pointer.lean): node at a position; tree with the
+    node at a position replaced; number of `struct json_object`s of a subtree (null = none);
+  * `AppendsToArray t p` (Lemmas/PointerSpec.lean): `p`'s last token is "-" and the tokens before it
+    resolve to an array in `t`;
+  * `displaced t p` (Lemmas/PointerSpec.lean): `liveNodes` of what RFC evaluation of `p` reaches in `t`
+    (the whole of `t` for ""; 0 when `p` does not resolve);
+  * `subst2`, `unescape`, `arrayIndex`, `eval`, `evalStrict`, `set`, `escapesWellFormed`: Spec/Rfc6901.lean.
 -/
 import JsonC.Lemmas.PointerSpec
 
@@ -266,10 +276,16 @@ def gotSummary (o : Outcome Got) : Option (Int × Errno × Option (List Nat)) :=
   | .ok g => some (g.rc, g.errno, g.node.map (·.1))
   | .fault _ => none
 
-/-- observable summary of a set: return code, location, nodes released, and the follow-up lookup -/
-def setSummary (p : Bytes) (o : Outcome SetRes) : Option (Int × Option (List Nat) × Nat × Option (Int × Errno × Option (List Nat))) :=
+/-- observable summary of a set: return code, location, nodes released -/
+def setSummary (o : Outcome SetRes) : Option (Int × Option (List Nat) × Nat) :=
   match o with
-  | .ok r => some (r.rc, r.loc, r.freed, gotSummary (get r.tree p))
+  | .ok r => some (r.rc, r.loc, r.freed)
+  | .fault _ => none
+
+/-- the follow-up lookup of `p` in the document a set left behind -/
+def followSummary (p : Bytes) (o : Outcome SetRes) : Option (Int × Errno × Option (List Nat)) :=
+  match o with
+  | .ok r => gotSummary (get r.tree p)
   | .fault _ => none
 
 /-- `{"a/b": [null, {"~": 7}], "": 1}` -/
@@ -282,13 +298,15 @@ appends at [0,2] (and does not resolve afterwards); "/a~1b/01" is refused with E
 example :
     gotSummary (get exDoc [47, 97, 126, 49, 98, 47, 49, 47, 126, 48]) = some (0, .none, some [0, 1, 0]) ∧
     gotSummary (get exDoc [47, 97, 126, 49, 98, 47, 48]) = some (0, .none, some [0, 0]) ∧
-    setSummary [47, 97, 126, 49, 98, 47, 49, 47, 126, 48]
+    setSummary (Pointer.set (fun _ => true) exDoc [47, 97, 126, 49, 98, 47, 49, 47, 126, 48] (.bool false))
+      = some (0, some [0, 1, 0], 1) ∧
+    followSummary [47, 97, 126, 49, 98, 47, 49, 47, 126, 48]
         (Pointer.set (fun _ => true) exDoc [47, 97, 126, 49, 98, 47, 49, 47, 126, 48] (.bool false))
-      = some (0, some [0, 1, 0], 1, some (0, .none, some [0, 1, 0])) ∧
-    setSummary [47, 97, 126, 49, 98, 47, 45]
-        (Pointer.set (fun _ => true) exDoc [47, 97, 126, 49, 98, 47, 45] .null)
-      = some (0, some [0, 2], 0, some (-1, .EINVAL, none)) ∧
+      = some (0, .none, some [0, 1, 0]) ∧
+    setSummary (Pointer.set (fun _ => true) exDoc [47, 97, 126, 49, 98, 47, 45] .null) = some (0, some [0, 2], 0) ∧
+    followSummary [47, 97, 126, 49, 98, 47, 45] (Pointer.set (fun _ => true) exDoc [47, 97, 126, 49, 98, 47, 45] .null)
+      = some (-1, .EINVAL, none) ∧
     gotSummary (get exDoc [47, 97, 126, 49, 98, 47, 48, 49]) = some (-1, .EINVAL, none) := by
-  decide
+  refine ⟨?_, ?_, ?_, ?_, ?_, ?_, ?_⟩ <;> decide
 
 end JsonC.Pointer
